@@ -181,6 +181,18 @@ func (b *builder) emitFail(w *writer, i int) []frame {
 		return append(fs, frame{name: "len", builtin: true})
 	case "uglobal":
 		return one("", "GLOB_LATE", "")
+	case "pluschain-str":
+		// a run of string literals that does not start the chain is folded by the compiler; the failing
+		// operation is still the first '+'
+		return one("x ", "+", " \"a\" + \"b\"")
+	case "pluschain-list":
+		return one("x ", "+", " [1] + [2] + [3]")
+	case "pluschain-multiline":
+		return one("x ", "+", "\n        \"a\" +\n        \"b\" +\n        \"c\"")
+	case "pluschain-mid":
+		return one("\"p\" + \"q\" ", "+", " x + \"a\" + \"b\"")
+	case "pluschain-tuple":
+		return one("(1,) + (2,) ", "+", " x + (3,) + (4,)")
 	default: // binary
 		return one("x ", "+", " \"s\"")
 	}
@@ -325,7 +337,7 @@ func build(c Case) (mainSrc, modSrc string, expected []frame, err error) {
 		if lastInModule {
 			w = xw
 		}
-		w.put("def g_arity(a):\n    return a\n")
+		w.put("def g_arity(a):\n    b = a + 1\n    c = [b * 2, b // 1]\n    return [a, b, c][0]\n")
 	}
 	mw.blank(c.TopGap)
 	mw.put("RESULT = (" + strings.Repeat(" ", c.TopCol) + "f0")
@@ -413,6 +425,29 @@ func checkChain(c Case) error {
 			}
 		}
 	}
+	// The reported stack is a function of the program alone: a thread that has executed other code before
+	// (whose frames, at the same depths, were at other program counters) reports the identical stack,
+	// including the position of frames whose position is not otherwise asserted.
+	warm := &starlark.Thread{Name: "c16-warm", Load: thread.Load}
+	if _, err := starlark.ExecFileOptions(opts, warm, "warm.star", warmSrc, nil); err != nil {
+		return fmt.Errorf("warm-up program failed: %v", err)
+	}
+	_, err2 := starlark.ExecFileOptions(opts, warm, "prog.star", mainSrc, nil)
+	var ee2 *starlark.EvalError
+	if !errors.As(err2, &ee2) {
+		return fmt.Errorf("on a re-used thread the program does not fail with an EvalError: %v", err2)
+	}
+	stackString := func(cs starlark.CallStack) string {
+		var sb strings.Builder
+		for _, f := range cs {
+			fmt.Fprintf(&sb, " %s@%s", f.Name, f.Pos)
+		}
+		return sb.String()
+	}
+	if a, b := stackString(got), stackString(ee2.CallStack); a != b {
+		return fmt.Errorf("call stack on a re-used thread differs from the one on a fresh thread:\nfresh:%s\nused: %s", a, b)
+	}
+
 	// Backtrace lists the frames outermost first.
 	bt := ee.Backtrace()
 	idx := 0
@@ -461,6 +496,27 @@ func checkChain(c Case) error {
 	return nil
 }
 
+// warmSrc runs a successful chain of calls, deeper than any generated chain, whose functions have many
+// position-bearing instructions each.
+var warmSrc = func() string {
+	var sb strings.Builder
+	const depth = 14
+	for i := depth; i >= 0; i-- {
+		fmt.Fprintf(&sb, "def w%d(x):\n    y = x + 1\n    z = [y * 2, y - 1, y // 1]\n    k = sorted([x, y], key = lambda e: -e)\n", i)
+		if i == depth {
+			sb.WriteString("    return x\n")
+		} else {
+			if i%2 == 0 {
+				fmt.Fprintf(&sb, "    return max([w%d(z[0] %% 7), 1], key = lambda e: e) + len(k)\n", i+1)
+			} else {
+				fmt.Fprintf(&sb, "    return sorted([y], key = lambda e: w%d(e))[0] + len(k)\n", i+1)
+			}
+		}
+	}
+	sb.WriteString("W = [w0(1) for _ in range(2)]\nV = (lambda a: w1(a))(3)\n")
+	return sb.String()
+}()
+
 func clipSrc(s string) string {
 	if len(s) > 1500 {
 		return s[:1500] + "..."
@@ -470,7 +526,7 @@ func clipSrc(s string) string {
 
 var subChain = vk.Register("chain", checkChain)
 
-var failKinds = []string{"binary", "unary", "index", "attr", "call", "div", "cmp", "in", "dictkey", "arity", "fail", "builtin",
+var failKinds = []string{"pluschain-str", "pluschain-list", "pluschain-multiline", "pluschain-mid", "pluschain-tuple", "binary", "unary", "index", "attr", "call", "div", "cmp", "in", "dictkey", "arity", "fail", "builtin",
 	"uglobal", "unpack", "ulocal", "for", "augindex", "setfield", "ufree", "ufree-lambda", "ucell"}
 var callKinds = []string{"plain", "plain", "comp", "default", "sorted", "min", "max", "cond"}
 
